@@ -26,7 +26,7 @@ Proof. destruct q; cbn; rewrite ?N.eqb_refl, ?Nat.eqb_refl; reflexivity. Qed.
 (* ------------------------------------------------------------------ identities *)
 
 Definition resolvable (c : cfg) (us : list user) (uid : N) : bool :=
-  match find_user us uid with Some u => negb (u_gone u) && ident_valid c u | None => false end.
+  is_ghost c uid || match find_user us uid with Some u => negb (u_gone u) && ident_valid c u | None => false end.
 Definition person_ok (c : cfg) (us : list user) (idents : list N) (uid : N) : bool := memN uid idents || resolvable c us uid.
 Definition idents_after (c : cfg) (us : list user) (idents : list N) (uid : N) : list N :=
   if memN uid idents then idents else if resolvable c us uid then idents ++ [uid] else idents.
@@ -42,6 +42,7 @@ Lemma ep_clean c us uid s : rs_fault s = None ->
   rs_bugs (fst (ensure_person c us uid s)) = rs_bugs s /\ rs_fault (fst (ensure_person c us uid s)) = None.
 Proof. intros F. unfold ensure_person, idents_after, person_ok, resolvable.
   destruct (memN uid (rs_idents s)) eqn:M; cbn; [auto|].
+  destruct (is_ghost c uid); cbn; [auto|].
   unfold send. rewrite F. cbn.
   destruct (find_user us uid) as [u|]; cbn; [|auto].
   destruct (u_gone u); cbn; [auto|]. destruct (ident_valid c u); cbn; auto. Qed.
@@ -55,6 +56,7 @@ Lemma ep_any c us uid s :
   (rs_fault s = None -> rs_fault (fst r) = None).
 Proof. cbn. unfold ensure_person, idents_after, person_ok, resolvable.
   destruct (memN uid (rs_idents s)) eqn:M; cbn; [repeat split; auto; discriminate|].
+  destruct (is_ghost c uid); cbn; [repeat split; auto; discriminate|].
   unfold send. destruct (match rs_fault s with Some f => req_eqb f (QUser uid) | None => false end) eqn:Hit; cbn.
   - repeat split; auto; try discriminate.
   - destruct (find_user us uid) as [u|]; cbn; [|repeat split; auto; discriminate].
@@ -210,15 +212,15 @@ Proof. intros Dd. unfold decide. rewrite Dd. cbn [andb].
       intros H. inversion H; subst. right. exists p, cur. cbn. repeat split; auto. intros ->. now rewrite text_eqb_refl in Q.
     + intros H. inversion H; subst. left. cbn. repeat split; try discriminate; try (intros ?; discriminate).
   - (* title *) destruct (resolve (ev_id e) ops) as [|p|] eqn:R; [|discriminate|];
-    (destruct (new_title (note_body e)); [|discriminate]); intros H; inversion H; subst; left; cbn; repeat split; try discriminate; try (intros ?; discriminate).
+    (destruct (new_title_c c (note_body e)); [|discriminate]); intros H; inversion H; subst; left; cbn; repeat split; try discriminate; try (intros ?; discriminate).
   - (* description *) destruct (comment_text ops 0) as [first|] eqn:T; [|discriminate].
     destruct (resolve (ev_id e) ops) as [|p|] eqn:R; cbn; try discriminate;
     (destruct (text_eqb (cleanup (i_desc iss)) first) eqn:Q; cbn; [discriminate|]); intros H; inversion H; subst; left; cbn;
     (repeat split; try discriminate; try (intros ?; discriminate); exists first; split; [reflexivity|]; intros ->; now rewrite text_eqb_refl in Q).
   - destruct (resolve (ev_id e) ops) as [|p|] eqn:R; [|discriminate|]; intros H; inversion H; subst; left; cbn; repeat split; try discriminate; try (intros ?; discriminate).
   - destruct (resolve (ev_id e) ops) as [|p|] eqn:R; [|discriminate|]; intros H; inversion H; subst; left; cbn; repeat split; try discriminate; try (intros ?; discriminate).
-  - destruct (resolve (ev_id e) ops) as [|p|] eqn:R; [|discriminate|]; intros H; inversion H; subst; left; cbn; repeat split; try discriminate; try (intros ?; discriminate).
-  - destruct (resolve (ev_id e) ops) as [|p|] eqn:R; [|discriminate|]; intros H; inversion H; subst; left; cbn; repeat split; try discriminate; try (intros ?; discriminate).
+  - destruct (resolve (ev_id e) ops) as [|p|] eqn:R; [|discriminate|]; (destruct (no_label c e); [discriminate|]); intros H; inversion H; subst; left; cbn; repeat split; try discriminate; try (intros ?; discriminate).
+  - destruct (resolve (ev_id e) ops) as [|p|] eqn:R; [|discriminate|]; (destruct (no_label c e); [discriminate|]); intros H; inversion H; subst; left; cbn; repeat split; try discriminate; try (intros ?; discriminate).
   - discriminate.
   - discriminate. Qed.
 
@@ -327,7 +329,7 @@ Proof. intros Dd I [ND NI] He He' S E'.
       assert (F : op_valid c (mkop (Some (ev_id e)) (ev_user e) (ev_time e) (OComment (cleanup (note_body e)))) = false)
         by (apply (SI _ (Some (RComment (i_iid iss)))); unfold decide; now rewrite K, R1).
       now rewrite op_valid_comment in F.
-    + (* title *) destruct (new_title (note_body e)) as [t|] eqn:NT; [|discriminate]. inversion D2; subst o2.
+    + (* title *) destruct (new_title_c c (note_body e)) as [t|] eqn:NT; [|discriminate]. inversion D2; subst o2.
       assert (F : op_valid c (mkop (Some (ev_id e)) (ev_user e) (ev_time e) (OTitle t (cur_title ops []))) = false)
         by (apply (SI _ (Some (RTitle (i_iid iss)))); unfold decide; now rewrite K, R1, NT).
       cbn in V2. apply andb_true_iff in V2 as [V2 _]. cbn in F. rewrite V2 in F. cbn in F.
@@ -350,8 +352,8 @@ Proof. intros Dd I [ND NI] He He' S E'.
         now rewrite op_valid_edit in F.
     + inversion D2; subst o2. rewrite (SI _ (Some (RStatus (i_iid iss)))) in V2; [discriminate|]. unfold decide. now rewrite K, R1.
     + inversion D2; subst o2. rewrite (SI _ (Some (RStatus (i_iid iss)))) in V2; [discriminate|]. unfold decide. now rewrite K, R1.
-    + inversion D2; subst o2. rewrite (SI _ None) in V2; [discriminate|]. unfold decide. now rewrite K, R1, Dd.
-    + inversion D2; subst o2. rewrite (SI _ None) in V2; [discriminate|]. unfold decide. now rewrite K, R1, Dd.
+    + destruct (no_label c e) eqn:NL; [discriminate|]. inversion D2; subst o2. rewrite (SI _ None) in V2; [discriminate|]. unfold decide. now rewrite K, R1, Dd, NL.
+    + destruct (no_label c e) eqn:NL; [discriminate|]. inversion D2; subst o2. rewrite (SI _ None) in V2; [discriminate|]. unfold decide. now rewrite K, R1, Dd, NL.
     + discriminate.
     + discriminate.
   - (* e would edit its comment *)
@@ -521,14 +523,21 @@ Proof. intros Hp. unfold npages. set (n := length l).
     rewrite Nat.mul_comm in E. lia. }
   nia. Qed.
 
-Lemma fetch_pages_clean {A} (mk : nat -> req) p (l : list A) : (1 <= p)%nat -> forall fuel k s,
+(* the listings are followed to their last page: the page size is positive, and either the code looks at X-Next-Page or
+   the server sends X-Total-Pages *)
+Definition paging_ok (c : cfg) (p : nat) : Prop := (1 <= p)%nat /\ (c_next_page c = true \/ c_totals c = true).
+
+Lemma last_page_ok {A} c p (l : list A) k : paging_ok c p -> last_page c p l k = Nat.leb (npages p l) k.
+Proof. intros [_ [H|H]]; unfold last_page; rewrite H; [reflexivity|]. now destruct (c_next_page c). Qed.
+
+Lemma fetch_pages_clean {A} c (mk : nat -> req) p (l : list A) : paging_ok c p -> forall fuel k s,
   rs_fault s = None -> (1 <= k)%nat -> (fuel + k = npages p l + 1)%nat ->
-  exists s', fetch_pages fuel mk p l k s = (s', skipn ((k - 1) * p) l, false) /\ same_core s s'.
-Proof. intros Hp. pose proof (npages_cover p l Hp) as Cov.
+  exists s', fetch_pages c fuel mk p l k s = (s', skipn ((k - 1) * p) l, false) /\ same_core s s'.
+Proof. intros Hpg. pose proof (proj1 Hpg) as Hp. pose proof (npages_cover p l Hp) as Cov.
   induction fuel as [|f IH]; intros k s F Hk E; cbn [fetch_pages].
   - exists s. split; [|apply same_core_refl]. f_equal. f_equal. symmetry. apply skipn_all2.
     replace (k - 1)%nat with (npages p l) by lia. exact Cov.
-  - destruct (send_clean (mk k) s F) as [s1 [-> C1]]. cbn [negb].
+  - destruct (send_clean (mk k) s F) as [s1 [-> C1]]. cbn [negb]. rewrite (last_page_ok c p l k Hpg).
     destruct (Nat.leb_spec (npages p l) k) as [Le|Lt].
     + exists s1. split; [|exact C1]. f_equal. f_equal. unfold page_of. apply firstn_all2. rewrite skipn_length. nia.
     + assert (F1 : rs_fault s1 = None) by (destruct C1 as [_ [_ [_ X]]]; congruence).
@@ -537,9 +546,9 @@ Proof. intros Hp. pose proof (npages_cover p l Hp) as Cov.
       replace (S k - 1)%nat with (k - 1 + 1)%nat by lia. rewrite Nat.mul_add_distr_r, Nat.mul_1_l, skipn_add.
       apply firstn_skipn. Qed.
 
-Lemma fetch_all_clean {A} (mk : nat -> req) p (l : list A) s : (1 <= p)%nat -> rs_fault s = None ->
-  exists s', fetch_all mk p l s = (s', l, false) /\ same_core s s'.
-Proof. intros Hp F. unfold fetch_all. destruct (fetch_pages_clean mk p l Hp (npages p l) 1 s F ltac:(lia) ltac:(lia)) as [s' [E C]].
+Lemma fetch_all_clean {A} c (mk : nat -> req) p (l : list A) s : paging_ok c p -> rs_fault s = None ->
+  exists s', fetch_all c mk p l s = (s', l, false) /\ same_core s s'.
+Proof. intros Hp F. unfold fetch_all. destruct (fetch_pages_clean c mk p l Hp (npages p l) 1 s F ltac:(lia) ltac:(lia)) as [s' [E C]].
   exists s'. split; [|exact C]. rewrite E. reflexivity. Qed.
 
 Lemma skipn_In {A} n (l : list A) x : In x (skipn n l) -> In x l.
@@ -548,13 +557,13 @@ Lemma firstn_In' {A} n (l : list A) x : In x (firstn n l) -> In x l.
 Proof. revert l. induction n; intros l; cbn; [tauto|]. destruct l; cbn; [tauto|]. intros [H|H]; auto. Qed.
 
 (* in general a listing returns some of the items *)
-Lemma fetch_pages_incl {A} (mk : nat -> req) p (l : list A) : forall fuel k s x,
-  In x (snd (fst (fetch_pages fuel mk p l k s))) -> In x l.
+Lemma fetch_pages_incl {A} c (mk : nat -> req) p (l : list A) : forall fuel k s x,
+  In x (snd (fst (fetch_pages c fuel mk p l k s))) -> In x l.
 Proof. induction fuel as [|f IH]; intros k s x; cbn [fetch_pages]; [cbn; tauto|].
   destruct (send (mk k) s) as [s1 ok]. destruct ok; cbn [negb]; [|cbn; tauto].
-  destruct (Nat.leb (npages p l) k).
+  destruct (last_page c p l k).
   - cbn. unfold page_of. intros H. apply firstn_In' in H. eapply skipn_In; eauto.
-  - destruct (fetch_pages f mk p l (S k) s1) as [[s2 rest] failed] eqn:E. cbn. intros H. apply in_app_or in H as [H|H].
+  - destruct (fetch_pages c f mk p l (S k) s1) as [[s2 rest] failed] eqn:E. cbn. intros H. apply in_app_or in H as [H|H].
     + unfold page_of in H. apply firstn_In' in H. eapply skipn_In; eauto.
     + apply (IH (S k) s1). now rewrite E. Qed.
 
@@ -600,23 +609,23 @@ Proof. intros Ne. induction bs as [|x t IH]; cbn.
 
 (* ------------------------------------------------------------------ one issue, no failure pending *)
 
-Definition create_op (iss : issue) : op :=
-  mkop (Some (i_iid iss)) (i_author iss) (i_created iss) (OCreate (cleanup1 (i_title iss)) (cleanup (i_desc iss))).
+Definition create_op (c : cfg) (iss : issue) : op :=
+  mkop (Some (i_iid iss)) (i_author iss) (i_created iss) (OCreate (issue_title c iss) (cleanup (i_desc iss))).
 
 Definition finish (c : cfg) (us : list user) (iss : issue) (ops0 : list op) (s : rs) : rs * bool :=
   let '(ops1, s6) := fold_left (ensure_event c us iss) (evs_of iss) (ops0, s) in
   if Nat.eqb (length ops1) (length ops0) then (emit (RNothing (i_iid iss)) s6, true)
   else (set_bugs (put_bug (mkbug (i_iid iss) ops1) (rs_bugs s6)) s6, true).
 
-Lemma import_issue_clean c us p iss s : (1 <= p)%nat -> rs_fault s = None ->
+Lemma import_issue_clean c us p iss s : paging_ok c p -> rs_fault s = None ->
   let ids1 := idents_after c us (rs_idents s) (i_author iss) in
   if person_ok c us (rs_idents s) (i_author iss) then
     match find_bug (i_iid iss) (rs_bugs s) with
     | Some b => exists s2, rs_idents s2 = ids1 /\ rs_bugs s2 = rs_bugs s /\ rs_fault s2 = None /\
                            import_issue c us p iss s = finish c us iss (b_ops b) s2
-    | None => if op_valid c (create_op iss)
-              then exists s2, rs_idents s2 = ids1 /\ rs_bugs s2 = put_bug (mkbug (i_iid iss) [create_op iss]) (rs_bugs s) /\ rs_fault s2 = None /\
-                              import_issue c us p iss s = finish c us iss [create_op iss] s2
+    | None => if op_valid c (create_op c iss)
+              then exists s2, rs_idents s2 = ids1 /\ rs_bugs s2 = put_bug (mkbug (i_iid iss) [create_op c iss]) (rs_bugs s) /\ rs_fault s2 = None /\
+                              import_issue c us p iss s = finish c us iss [create_op c iss] s2
               else exists s', import_issue c us p iss s = (s', false) /\ rs_idents s' = ids1 /\ rs_bugs s' = rs_bugs s /\ rs_fault s' = None
     end
   else exists s', import_issue c us p iss s = (s', false) /\ rs_idents s' = rs_idents s /\ rs_bugs s' = rs_bugs s /\ rs_fault s' = None.
@@ -626,28 +635,28 @@ Proof. intros Hp F. cbn zeta. unfold import_issue.
   destruct (person_ok c us (rs_idents s) (i_author iss)) eqn:P; cbn [negb].
   2:{ eexists. split; [reflexivity|]. cbn. repeat split; auto. unfold idents_after in A. unfold person_ok in P.
       apply orb_false_iff in P as [P1 P2]. now rewrite P1, P2 in A. }
-  rewrite C. fold (create_op iss).
+  rewrite C. fold (create_op c iss).
   assert (Fin : forall ops0 s2, rs_fault s2 = None ->
             exists s5, same_core s2 s5 /\
-            (let '(s3, ns, fn) := fetch_all (QNotes (i_iid iss)) p (i_notes iss) s2 in
-             let '(s4, ls, fl) := fetch_all (QLabels (i_iid iss)) p (i_labels iss) s3 in
-             let '(s5, ss, fs) := fetch_all (QStates (i_iid iss)) p (i_states iss) s4 in
+            (let '(s3, ns, fn) := fetch_all c (QNotes (i_iid iss)) p (i_notes iss) s2 in
+             let '(s4, ls, fl) := fetch_all c (QLabels (i_iid iss)) p (i_labels iss) s3 in
+             let '(s5, ss, fs) := fetch_all c (QStates (i_iid iss)) p (i_states iss) s4 in
              let evs := sorted_events (with_error (map ENote ns) fn) (with_error (map ELabel ls) fl) (with_error (map EState ss) fs) in
              let '(ops1, s6) := fold_left (ensure_event c us iss) evs (ops0, s5) in
              if Nat.eqb (length ops1) (length ops0) then (emit (RNothing (i_iid iss)) s6, true)
              else (set_bugs (put_bug (mkbug (i_iid iss) ops1) (rs_bugs s6)) s6, true)) = finish c us iss ops0 s5).
   { intros ops0 s2 F2.
-    destruct (fetch_all_clean (QNotes (i_iid iss)) p (i_notes iss) s2 Hp F2) as [s3 [E3 C3]]. rewrite E3.
+    destruct (fetch_all_clean c (QNotes (i_iid iss)) p (i_notes iss) s2 Hp F2) as [s3 [E3 C3]]. rewrite E3.
     assert (F3 : rs_fault s3 = None) by (destruct C3 as [_ [_ [_ X]]]; congruence).
-    destruct (fetch_all_clean (QLabels (i_iid iss)) p (i_labels iss) s3 Hp F3) as [s4 [E4 C4]]. rewrite E4.
+    destruct (fetch_all_clean c (QLabels (i_iid iss)) p (i_labels iss) s3 Hp F3) as [s4 [E4 C4]]. rewrite E4.
     assert (F4 : rs_fault s4 = None) by (destruct C4 as [_ [_ [_ X]]]; congruence).
-    destruct (fetch_all_clean (QStates (i_iid iss)) p (i_states iss) s4 Hp F4) as [s5 [E5 C5]]. rewrite E5.
+    destruct (fetch_all_clean c (QStates (i_iid iss)) p (i_states iss) s4 Hp F4) as [s5 [E5 C5]]. rewrite E5.
     exists s5. split; [eapply same_core_trans; [eapply same_core_trans|]; eauto|]. reflexivity. }
   destruct (find_bug (i_iid iss) (rs_bugs s)) as [b|] eqn:FB.
   - destruct (Fin (b_ops b) s1 D) as [s5 [[X1 [X2 [X3 X4]]] E]]. exists s5. repeat split; try congruence. exact E.
-  - destruct (op_valid c (create_op iss)) eqn:V.
-    + set (s2 := emit (RBug (i_iid iss)) (set_bugs (put_bug (mkbug (i_iid iss) [create_op iss]) (rs_bugs s)) s1)).
-      destruct (Fin [create_op iss] s2 D) as [s5 [[X1 [X2 [X3 X4]]] E]]. exists s5.
+  - destruct (op_valid c (create_op c iss)) eqn:V.
+    + set (s2 := emit (RBug (i_iid iss)) (set_bugs (put_bug (mkbug (i_iid iss) [create_op c iss]) (rs_bugs s)) s1)).
+      destruct (Fin [create_op c iss] s2 D) as [s5 [[X1 [X2 [X3 X4]]] E]]. exists s5.
       repeat split; try (subst s2; cbn in *; congruence).
     + eexists. split; [reflexivity|]. cbn. repeat split; auto. Qed.
 
@@ -699,15 +708,15 @@ Proof. intros F FB S En. cbn zeta. unfold finish.
 Definition bug_ok (c : cfg) (iss : issue) (bugs : list bug) : Prop :=
   forall b, find_bug (i_iid iss) bugs = Some b -> inv_ops c iss (b_ops b).
 
-Lemma inv_ops_create c iss : op_valid c (create_op iss) = true -> inv_ops c iss [create_op iss].
+Lemma inv_ops_create c iss : op_valid c (create_op c iss) = true -> inv_ops c iss [create_op c iss].
 Proof. intros V. split; [|split; [|split]].
-  - exists (create_op iss), []. repeat split. cbn. discriminate.
+  - exists (create_op c iss), []. repeat split. cbn. discriminate.
   - constructor; [exact V|constructor].
   - intros o q m [<-|[]]. cbn. discriminate.
   - cbn. constructor; [tauto|constructor]. Qed.
 
 (* first time *)
-Lemma issue_first c us p iss s : c_dedupe_labels c = true -> (1 <= p)%nat -> wf_issue iss -> rs_fault s = None -> bug_ok c iss (rs_bugs s) ->
+Lemma issue_first c us p iss s : c_dedupe_labels c = true -> paging_ok c p -> wf_issue iss -> rs_fault s = None -> bug_ok c iss (rs_bugs s) ->
   let r := import_issue c us p iss s in
   rs_fault (fst r) = None /\ grown c us (rs_idents s) (rs_idents (fst r)) /\
   (forall iid', iid' <> i_iid iss -> find_bug iid' (rs_bugs (fst r)) = find_bug iid' (rs_bugs s)) /\
@@ -715,7 +724,7 @@ Lemma issue_first c us p iss s : c_dedupe_labels c = true -> (1 <= p)%nat -> wf_
   (snd r = true -> issue_done c us iss (rs_idents (fst r)) (rs_bugs (fst r))) /\
   (snd r = false -> rs_bugs (fst r) = rs_bugs s /\ rs_idents (fst r) = idents_after c us (rs_idents s) (i_author iss) /\
                     (person_ok c us (rs_idents s) (i_author iss) = false \/
-                     (find_bug (i_iid iss) (rs_bugs s) = None /\ op_valid c (create_op iss) = false))).
+                     (find_bug (i_iid iss) (rs_bugs s) = None /\ op_valid c (create_op c iss) = false))).
 Proof. intros Dd Hp W F BO. cbn zeta. pose proof (import_issue_clean c us p iss s Hp F) as H. cbn zeta in H.
   destruct (person_ok c us (rs_idents s) (i_author iss)) eqn:P.
   2:{ destruct H as [s' [-> [A [B C]]]]. cbn [fst snd]. rewrite A, B.
@@ -733,7 +742,7 @@ Proof. intros Dd Hp W F BO. cbn zeta. pose proof (import_issue_clean c us p iss 
             bug_ok c iss (rs_bugs (fst r)) /\
             (snd r = true -> issue_done c us iss (rs_idents (fst r)) (rs_bugs (fst r))) /\
             (snd r = false -> rs_bugs (fst r) = rs_bugs s /\ rs_idents (fst r) = idents_after c us (rs_idents s) (i_author iss) /\
-                    (true = false \/ (find_bug (i_iid iss) (rs_bugs s) = None /\ op_valid c (create_op iss) = false)))).
+                    (true = false \/ (find_bug (i_iid iss) (rs_bugs s) = None /\ op_valid c (create_op c iss) = false)))).
   { intros ops0 s2 b0 Ids F2 I0 FB Eb Fr. cbn zeta.
     assert (G2 : grown c us (rs_idents s) (rs_idents s2)) by (now rewrite Ids).
     pose proof (finish_first c us iss (rs_idents s) ops0 s2 b0 Dd W F2 I0 G2 FB Eb) as X. cbn zeta in X.
@@ -746,17 +755,17 @@ Proof. intros Dd Hp W F BO. cbn zeta. pose proof (import_issue_clean c us p iss 
     intros e He Pe. apply X8; [exact He|]. now rewrite <- (grown_ok c us (rs_idents s) _ _ X3). }
   destruct (find_bug (i_iid iss) (rs_bugs s)) as [b|] eqn:FB.
   - destruct H as [s2 [A [B [C ->]]]]. apply (Done (b_ops b) s2 b); auto; try congruence; try (intros; now rewrite B).
-  - destruct (op_valid c (create_op iss)) eqn:V.
-    + destruct H as [s2 [A [B [C ->]]]]. apply (Done [create_op iss] s2 (mkbug (i_iid iss) [create_op iss])); auto.
+  - destruct (op_valid c (create_op c iss)) eqn:V.
+    + destruct H as [s2 [A [B [C ->]]]]. apply (Done [create_op c iss] s2 (mkbug (i_iid iss) [create_op c iss])); auto.
       * now apply inv_ops_create.
-      * rewrite B. apply (find_put_same (mkbug (i_iid iss) [create_op iss])).
+      * rewrite B. apply (find_put_same (mkbug (i_iid iss) [create_op c iss])).
       * intros iid' Ne. rewrite B. now apply find_put_other.
     + destruct H as [s' [-> [A [B C]]]]. cbn [fst snd]. rewrite A, B.
       split; [exact C|]. split; [exact G1|]. split; [auto|]. split; [exact BO|]. split; [discriminate|].
       intros _. split; [reflexivity|]. split; [reflexivity|]. right. now split. Qed.
 
 (* second time: nothing changes *)
-Lemma issue_again c us p iss s : (1 <= p)%nat -> rs_fault s = None -> issue_done c us iss (rs_idents s) (rs_bugs s) ->
+Lemma issue_again c us p iss s : paging_ok c p -> rs_fault s = None -> issue_done c us iss (rs_idents s) (rs_bugs s) ->
   let r := import_issue c us p iss s in
   snd r = true /\ rs_idents (fst r) = rs_idents s /\ rs_bugs (fst r) = rs_bugs s /\ rs_fault (fst r) = None.
 Proof. intros Hp F [Au [b [FB [I [S En]]]]]. cbn zeta.
@@ -774,7 +783,7 @@ Proof. intros [Au [b [FB [I [S En]]]]] G E. split; [now apply G|]. exists b. rew
   - intros e He NE NM. eapply ensured_mono; [apply G|]. now apply En. Qed.
 
 (* an issue that stopped the run stops it again, and nothing changes *)
-Lemma issue_abort_again c us p iss s s1 : (1 <= p)%nat -> rs_fault s = None -> import_issue c us p iss s = (s1, false) ->
+Lemma issue_abort_again c us p iss s s1 : paging_ok c p -> rs_fault s = None -> import_issue c us p iss s = (s1, false) ->
   forall s', rs_fault s' = None -> rs_idents s' = rs_idents s1 -> rs_bugs s' = rs_bugs s1 ->
   let r := import_issue c us p iss s' in
   snd r = false /\ rs_idents (fst r) = rs_idents s' /\ rs_bugs (fst r) = rs_bugs s'.
@@ -786,8 +795,8 @@ Proof. intros Hp F E s' F' Ids Bs. cbn zeta.
   destruct (person_ok c us (rs_idents s) (i_author iss)) eqn:P.
   - destruct (find_bug (i_iid iss) (rs_bugs s)) as [b|] eqn:FB.
     + destruct H as [s2 [_ [_ [_ X]]]]. rewrite E in X. pose proof (FinTrue (b_ops b) s2) as Y. rewrite <- X in Y. discriminate.
-    + destruct (op_valid c (create_op iss)) eqn:V.
-      * destruct H as [s2 [_ [_ [_ X]]]]. rewrite E in X. pose proof (FinTrue [create_op iss] s2) as Y. rewrite <- X in Y. discriminate.
+    + destruct (op_valid c (create_op c iss)) eqn:V.
+      * destruct H as [s2 [_ [_ [_ X]]]]. rewrite E in X. pose proof (FinTrue [create_op c iss] s2) as Y. rewrite <- X in Y. discriminate.
       * destruct H as [s0 [X [A [B _]]]]. rewrite E in X. inversion X; subst s0.
         assert (In (i_author iss) (rs_idents s')) by (rewrite Ids, A; now apply idents_after_ok).
         assert (P' : person_ok c us (rs_idents s') (i_author iss) = true) by (unfold person_ok; apply memN_In in H; now rewrite H).
@@ -803,7 +812,7 @@ Lemma import_issues_app c us p a b s :
 Proof. revert s. induction a as [|i a IH]; intros s; cbn; [now destruct (import_issues c us p b s)|].
   destruct (import_issue c us p i s) as [s1 go]. destruct go; [apply IH|reflexivity]. Qed.
 
-Lemma issues_first c us p : c_dedupe_labels c = true -> (1 <= p)%nat -> forall l s,
+Lemma issues_first c us p : c_dedupe_labels c = true -> paging_ok c p -> forall l s,
   Forall wf_issue l -> NoDup (map i_iid l) -> rs_fault s = None -> (forall i, In i l -> bug_ok c i (rs_bugs s)) ->
   let r := import_issues c us p l s in
   rs_fault (fst r) = None /\ grown c us (rs_idents s) (rs_idents (fst r)) /\
@@ -835,7 +844,7 @@ Proof. intros Dd Hp. induction l as [|i t IH]; intros s W ND F BO; cbn zeta.
       * intros iid' Nin. apply X3. intros Eq. apply Nin. cbn. now left.
       * intros _. exists [], i, t, s. split; [reflexivity|]. split; [intros j []|]. split; [exact F|exact E1]. Qed.
 
-Lemma issues_again c us p : (1 <= p)%nat -> forall l s, rs_fault s = None ->
+Lemma issues_again c us p : paging_ok c p -> forall l s, rs_fault s = None ->
   (forall i, In i l -> issue_done c us i (rs_idents s) (rs_bugs s)) ->
   let r := import_issues c us p l s in
   snd r = true /\ rs_idents (fst r) = rs_idents s /\ rs_bugs (fst r) = rs_bugs s /\ rs_fault (fst r) = None.
@@ -885,7 +894,10 @@ Lemma ep_facts c us uid s : let r := ensure_person c us uid s in
   ext s (fst r) /\ calm s (fst r) /\ errs (fst r) = errs s /\ (consumed s (fst r) -> snd r = false).
 Proof. cbn zeta. unfold ensure_person. destruct (memN uid (rs_idents s)).
   - cbn. repeat split; [apply ext_refl|apply calm_refl|]. intros [P Q]. congruence.
-  - pose proof (send_facts (QUser uid) s) as H. cbn zeta in H. destruct (send (QUser uid) s) as [s1 ok]. cbn [fst snd] in *.
+  - destruct (is_ghost c uid).
+    { cbn [fst snd]. split; [exists [RIdent uid]; reflexivity|]. split; [unfold calm, pending; cbn; auto|].
+      split; [unfold errs; cbn; rewrite has_error_app; cbn; now rewrite orb_false_r|]. unfold consumed, pending. cbn. intros [P Q]. congruence. }
+    pose proof (send_facts (QUser uid) s) as H. cbn zeta in H. destruct (send (QUser uid) s) as [s1 ok]. cbn [fst snd] in *.
     destruct H as [E [Ca [R [F1 F2]]]]. unfold errs. destruct ok; cbn [negb].
     + assert (NC : consumed s s1 -> False) by (intros X; specialize (F2 X); discriminate).
       destruct (find_user us uid) as [u|]; [destruct (u_gone u); [|destruct (ident_valid c u)]|]; cbn [fst snd];
@@ -929,23 +941,23 @@ Proof. induction evs as [|e t IH]; intros ops s; cbn zeta.
     + intros Co. destruct (consumed_split _ _ _ C1 C2 Co) as [A|A]; [eapply ext_errs; [exact E2|now apply K1]|now apply K2].
     + intros [He|Hin]; [eapply ext_errs; [exact E2|now apply X1]|now apply X2]. Qed.
 
-Lemma fetch_pages_facts {A} (mk : nat -> req) p (l : list A) : forall fuel k s,
-  let r := fetch_pages fuel mk p l k s in
+Lemma fetch_pages_facts {A} c (mk : nat -> req) p (l : list A) : forall fuel k s,
+  let r := fetch_pages c fuel mk p l k s in
   rs_res (fst (fst r)) = rs_res s /\ calm s (fst (fst r)) /\ (consumed s (fst (fst r)) -> snd r = true).
 Proof. induction fuel as [|f IH]; intros k s; cbn zeta; cbn [fetch_pages].
   - cbn. split; [reflexivity|]. split; [apply calm_refl|]. intros [P Q]. congruence.
   - pose proof (send_facts (mk k) s) as H. cbn zeta in H. destruct (send (mk k) s) as [s1 ok]. cbn [fst snd] in H.
     destruct H as [_ [Ca [R [F1 F2]]]]. destruct ok; cbn [negb].
     + assert (NC : consumed s s1 -> False) by (intros X; specialize (F2 X); discriminate).
-      destruct (Nat.leb (npages p l) k).
+      destruct (last_page c p l k).
       * cbn. split; [exact R|]. split; [exact Ca|]. intros X. exfalso. now apply NC.
-      * specialize (IH (S k) s1). cbn zeta in IH. destruct (fetch_pages f mk p l (S k) s1) as [[s2 rest] failed]. cbn [fst snd] in *.
+      * specialize (IH (S k) s1). cbn zeta in IH. destruct (fetch_pages c f mk p l (S k) s1) as [[s2 rest] failed]. cbn [fst snd] in *.
         destruct IH as [R2 [C2 K2]]. split; [congruence|]. split; [eapply calm_trans; eauto|].
         intros Co. destruct (consumed_split _ _ _ Ca C2 Co) as [X|X]; [exfalso; now apply NC|now apply K2].
     + cbn. split; [exact R|]. split; [exact Ca|]. reflexivity. Qed.
 
-Lemma fetch_all_facts {A} (mk : nat -> req) p (l : list A) s :
-  let r := fetch_all mk p l s in
+Lemma fetch_all_facts {A} c (mk : nat -> req) p (l : list A) s :
+  let r := fetch_all c mk p l s in
   rs_res (fst (fst r)) = rs_res s /\ calm s (fst (fst r)) /\ (consumed s (fst (fst r)) -> snd r = true).
 Proof. apply fetch_pages_facts. Qed.
 
@@ -991,12 +1003,12 @@ Proof. cbn zeta. unfold import_issue.
   { subst created. destruct (find_bug (i_iid iss) (rs_bugs s1)); [split; [apply ext_refl|reflexivity]|].
     destruct (op_valid c _); [|exact I]. split; [|reflexivity]. eapply ext_trans; [apply ext_set_bugs|apply emit_ext]. }
   destruct created as [[ops0 s2]|]; [|exact Abort]. destruct Cr as [E2 P2].
-  pose proof (fetch_all_facts (QNotes (i_iid iss)) p (i_notes iss) s2) as F3. cbn zeta in F3.
-  destruct (fetch_all (QNotes (i_iid iss)) p (i_notes iss) s2) as [[s3 ns] fn]. cbn [fst snd] in F3. destruct F3 as [R3 [C3 K3]].
-  pose proof (fetch_all_facts (QLabels (i_iid iss)) p (i_labels iss) s3) as F4. cbn zeta in F4.
-  destruct (fetch_all (QLabels (i_iid iss)) p (i_labels iss) s3) as [[s4 ls] fl]. cbn [fst snd] in F4. destruct F4 as [R4 [C4 K4]].
-  pose proof (fetch_all_facts (QStates (i_iid iss)) p (i_states iss) s4) as F5. cbn zeta in F5.
-  destruct (fetch_all (QStates (i_iid iss)) p (i_states iss) s4) as [[s5 ss] fs]. cbn [fst snd] in F5. destruct F5 as [R5 [C5 K5]].
+  pose proof (fetch_all_facts c (QNotes (i_iid iss)) p (i_notes iss) s2) as F3. cbn zeta in F3.
+  destruct (fetch_all c (QNotes (i_iid iss)) p (i_notes iss) s2) as [[s3 ns] fn]. cbn [fst snd] in F3. destruct F3 as [R3 [C3 K3]].
+  pose proof (fetch_all_facts c (QLabels (i_iid iss)) p (i_labels iss) s3) as F4. cbn zeta in F4.
+  destruct (fetch_all c (QLabels (i_iid iss)) p (i_labels iss) s3) as [[s4 ls] fl]. cbn [fst snd] in F4. destruct F4 as [R4 [C4 K4]].
+  pose proof (fetch_all_facts c (QStates (i_iid iss)) p (i_states iss) s4) as F5. cbn zeta in F5.
+  destruct (fetch_all c (QStates (i_iid iss)) p (i_states iss) s4) as [[s5 ss] fs]. cbn [fst snd] in F5. destruct F5 as [R5 [C5 K5]].
   set (evs := sorted_events _ _ _).
   pose proof (events_facts c us iss evs ops0 s5) as F6. cbn zeta in F6.
   destruct (fold_left (ensure_event c us iss) evs (ops0, s5)) as [ops1 s6]. cbn [fst snd] in F6. destruct F6 as [E6 [C6 [K6 X6]]].
@@ -1035,8 +1047,8 @@ Proof. induction l as [|i t IH]; intros s; cbn zeta.
 Lemma import_all_facts c t p since s : c_list_error c = true -> let r := import_all c t p since s in
   ext s (fst r) /\ calm s (fst r) /\ (consumed s (fst r) -> errs (fst r) = true) /\ (snd r = false -> errs (fst r) = true).
 Proof. intros LE. cbn zeta. unfold import_all.
-  pose proof (fetch_all_facts QIssues p (listed t since) s) as F1. cbn zeta in F1.
-  destruct (fetch_all QIssues p (listed t since) s) as [[s1 l] failed]. cbn [fst snd] in F1. destruct F1 as [R1 [C1 K1]].
+  pose proof (fetch_all_facts c QIssues p (listed t since) s) as F1. cbn zeta in F1.
+  destruct (fetch_all c QIssues p (listed t since) s) as [[s1 l] failed]. cbn [fst snd] in F1. destruct F1 as [R1 [C1 K1]].
   pose proof (issues_facts c (t_users t) p l s1) as F2. cbn zeta in F2.
   destruct (import_issues c (t_users t) p l s1) as [s2 go]. cbn [fst snd] in F2. destruct F2 as [E2 [C2 [K2 A2]]].
   assert (E01 : ext s s1) by (exists []; rewrite app_nil_r; congruence).
@@ -1063,13 +1075,13 @@ Proof. intros [W N]. split.
   - apply Forall_forall. intros i Hi. rewrite Forall_forall in W. apply W. now apply (listed_in t since).
   - unfold listed. destruct since; [now apply NoDup_map_filter|exact N]. Qed.
 
-Lemma import_all_clean c t p since s : (1 <= p)%nat -> rs_fault s = None ->
+Lemma import_all_clean c t p since s : paging_ok c p -> rs_fault s = None ->
   exists s1, same_core s s1 /\ import_all c t p since s = import_issues c (t_users t) p (listed t since) s1.
-Proof. intros Hp F. unfold import_all. destruct (fetch_all_clean QIssues p (listed t since) s Hp F) as [s1 [E C]]. rewrite E.
+Proof. intros Hp F. unfold import_all. destruct (fetch_all_clean c QIssues p (listed t since) s Hp F) as [s1 [E C]]. rewrite E.
   exists s1. split; [exact C|]. destruct (import_issues c (t_users t) p (listed t since) s1) as [s2 go]. now rewrite andb_false_r. Qed.
 
 (* a second import of the same listing, or of a part of a listing that was gone through to its end, changes nothing *)
-Lemma import_all_again c t p since s : c_dedupe_labels c = true -> (1 <= p)%nat -> wf_tracker t -> rs_fault s = None -> bugs_ok c t (rs_bugs s) ->
+Lemma import_all_again c t p since s : c_dedupe_labels c = true -> paging_ok c p -> wf_tracker t -> rs_fault s = None -> bugs_ok c t (rs_bugs s) ->
   let r1 := import_all c t p since s in
   forall since' s', rs_fault s' = None -> rs_idents s' = rs_idents (fst r1) -> rs_bugs s' = rs_bugs (fst r1) ->
   since' = since \/ (snd r1 = true /\ forall i, In i (listed t since') -> In i (listed t since)) ->
@@ -1107,7 +1119,7 @@ Proof. unfold listed. intros L H. apply filter_In in H as [H1 H2]. apply filter_
 
 (* C16_idempotent: an import round, then another one of the same kind on the same tracker state: nothing is added *)
 Lemma idempotent_round c t p full now now' idents bugs cursor :
-  c_dedupe_labels c = true -> (1 <= p)%nat -> wf_tracker t -> bugs_ok c t bugs ->
+  c_dedupe_labels c = true -> paging_ok c p -> wf_tracker t -> bugs_ok c t bugs ->
   match cursor with Some x => x <= now - 5 | None => True end ->
   let o1 := run_round c t p full now None idents bugs cursor in
   let o2 := run_round c t p full now' None (out_idents o1) (out_bugs o1) (out_cursor o1) in
@@ -1136,7 +1148,7 @@ Proof. intros Dd Hp W BO Hc. cbn zeta. unfold run_round.
 Definition importable (c : cfg) (e : event) : bool :=
   match ev_kind e with
   | KComment | KClosed | KReopened => true
-  | KTitle => match new_title (note_body e) with Some t => title_valid c t | None => false end
+  | KTitle => match new_title_c c (note_body e) with Some t => title_valid c t | None => false end
   | KAddLabel | KRemoveLabel => label_valid c (label_name e)
   | _ => false
   end.
@@ -1158,9 +1170,9 @@ Proof. intros Dd I H. destruct (step_cases c iss ok ops e) as [E|[o [r [E [D [V 
   unfold importable. destruct (ev_kind e) eqn:K; auto.
   - (* title: the operation validated, so the new title is valid *)
     left. unfold decide in D. rewrite K in D. destruct (resolve (ev_id e) ops); try discriminate;
-    (destruct (new_title (note_body e)) as [t|]; [|discriminate]); inversion D; subst o; cbn in V; now apply andb_true_iff in V as [V _].
-  - left. unfold decide in D. rewrite K, Dd in D. destruct (resolve (ev_id e) ops); cbn in D; try discriminate; inversion D; subst o; exact V.
-  - left. unfold decide in D. rewrite K, Dd in D. destruct (resolve (ev_id e) ops); cbn in D; try discriminate; inversion D; subst o; exact V.
+    (destruct (new_title_c c (note_body e)) as [t|]; [|discriminate]); inversion D; subst o; cbn in V; now apply andb_true_iff in V as [V _].
+  - left. unfold decide in D. rewrite K, Dd in D. destruct (resolve (ev_id e) ops); cbn in D; try discriminate; (destruct (no_label c e); [discriminate|]); inversion D; subst o; exact V.
+  - left. unfold decide in D. rewrite K, Dd in D. destruct (resolve (ev_id e) ops); cbn in D; try discriminate; (destruct (no_label c e); [discriminate|]); inversion D; subst o; exact V.
   - unfold decide in D. rewrite K in D. discriminate.
   - unfold decide in D. rewrite K in D. discriminate. Qed.
 
@@ -1174,7 +1186,7 @@ Proof. intros [_ [Va _]] S NE Im. apply resolve_in. intros R.
   - assert (F : op_valid c (mkop (Some (ev_id e)) (ev_user e) (ev_time e) (OComment (cleanup (note_body e)))) = false)
       by (apply (SI _ (Some (RComment (i_iid iss)))); unfold decide; now rewrite K, R).
     now rewrite op_valid_comment in F.
-  - destruct (new_title (note_body e)) as [t|] eqn:NT; [|discriminate].
+  - destruct (new_title_c c (note_body e)) as [t|] eqn:NT; [|discriminate].
     assert (F : op_valid c (mkop (Some (ev_id e)) (ev_user e) (ev_time e) (OTitle t (cur_title ops []))) = false)
       by (apply (SI _ (Some (RTitle (i_iid iss)))); unfold decide; now rewrite K, R, NT).
     cbn in F. rewrite Im in F. cbn in F. rewrite (cur_title_safe c ops [] Va eq_refl) in F. discriminate.
@@ -1182,11 +1194,13 @@ Proof. intros [_ [Va _]] S NE Im. apply resolve_in. intros R.
       by (apply (SI _ (Some (RStatus (i_iid iss)))); unfold decide; now rewrite K, R). discriminate.
   - assert (F : op_valid c (mkop (Some (ev_id e)) (ev_user e) (ev_time e) (OStatus false)) = false)
       by (apply (SI _ (Some (RStatus (i_iid iss)))); unfold decide; now rewrite K, R). discriminate.
-  - assert (F : op_valid c (mkop (Some (ev_id e)) (ev_user e) (ev_time e) (OLabel true (label_name e))) = false)
-      by (apply (SI _ None); unfold decide; rewrite K, R; now destruct (c_dedupe_labels c)).
+  - assert (NL : no_label c e = false) by (unfold no_label; unfold label_valid in Im; apply andb_true_iff in Im as [Im _]; apply negb_true_iff in Im; rewrite Im; apply andb_false_r).
+    assert (F : op_valid c (mkop (Some (ev_id e)) (ev_user e) (ev_time e) (OLabel true (label_name e))) = false)
+      by (apply (SI _ None); unfold decide; rewrite K, R, NL; now destruct (c_dedupe_labels c)).
     cbn in F. congruence.
-  - assert (F : op_valid c (mkop (Some (ev_id e)) (ev_user e) (ev_time e) (OLabel false (label_name e))) = false)
-      by (apply (SI _ None); unfold decide; rewrite K, R; now destruct (c_dedupe_labels c)).
+  - assert (NL : no_label c e = false) by (unfold no_label; unfold label_valid in Im; apply andb_true_iff in Im as [Im _]; apply negb_true_iff in Im; rewrite Im; apply andb_false_r).
+    assert (F : op_valid c (mkop (Some (ev_id e)) (ev_user e) (ev_time e) (OLabel false (label_name e))) = false)
+      by (apply (SI _ None); unfold decide; rewrite K, R, NL; now destruct (c_dedupe_labels c)).
     cbn in F. congruence. Qed.
 
 (* one event, a failure possibly pending *)
@@ -1242,12 +1256,12 @@ Definition ops_of (iid : N) (bugs : list bug) : list op := match find_bug iid bu
 Definition justified_ev (c : cfg) (us : list user) (base : list N) (iss : issue) (g : N) : Prop :=
   exists e, In_ev iss e /\ e <> EError /\ ev_id e = g /\ person_ok c us base (ev_user e) = true /\ (importable c e = true \/ ev_kind e = KDesc).
 
-Lemma fetch_pages_core {A} (mk : nat -> req) p (l : list A) : forall fuel k s,
-  rs_idents (fst (fst (fetch_pages fuel mk p l k s))) = rs_idents s /\ rs_bugs (fst (fst (fetch_pages fuel mk p l k s))) = rs_bugs s.
+Lemma fetch_pages_core {A} c (mk : nat -> req) p (l : list A) : forall fuel k s,
+  rs_idents (fst (fst (fetch_pages c fuel mk p l k s))) = rs_idents s /\ rs_bugs (fst (fst (fetch_pages c fuel mk p l k s))) = rs_bugs s.
 Proof. induction fuel as [|f IH]; intros k s; cbn [fetch_pages]; [now cbn|].
   pose proof (send_proj (mk k) s) as [A1 [A2 _]]. destruct (send (mk k) s) as [s1 ok]. cbn [fst snd] in *.
-  destruct ok; cbn [negb]; [|now cbn]. destruct (Nat.leb (npages p l) k); [now cbn|].
-  specialize (IH (S k) s1). destruct (fetch_pages f mk p l (S k) s1) as [[s2 rest] failed]. cbn [fst snd] in *. destruct IH. split; congruence. Qed.
+  destruct ok; cbn [negb]; [|now cbn]. destruct (last_page c p l k); [now cbn|].
+  specialize (IH (S k) s1). destruct (fetch_pages c f mk p l (S k) s1) as [[s2 rest] failed]. cbn [fst snd] in *. destruct IH. split; congruence. Qed.
 
 (* one issue, a failure possibly pending: what is added to its bug is justified; nothing else is touched *)
 Lemma issue_sound c us p iss s base : c_dedupe_labels c = true -> bug_ok c iss (rs_bugs s) -> grown c us base (rs_idents s) ->
@@ -1268,12 +1282,12 @@ Proof. intros Dd BO G. cbn zeta. unfold import_issue.
             (forall g, In g (gids (ops_of (i_iid iss) (rs_bugs (emit RError s1)))) ->
                        In g (gids (ops_of (i_iid iss) (rs_bugs s))) \/ g = i_iid iss \/ justified_ev c us base iss g)).
   { cbn [emit rs_idents rs_bugs]. rewrite B1. split; [exact G1|]. split; [exact BO|]. split; [auto|]. split; [exists []; now rewrite app_nil_r|auto]. }
-  destruct ok; cbn [negb]; [|exact Abort]. fold (create_op iss).
+  destruct ok; cbn [negb]; [|exact Abort]. fold (create_op c iss).
   (* the bug: found, or created *)
   assert (Cr : match (match find_bug (i_iid iss) (rs_bugs s1) with
                       | Some b => Some (b_ops b, s1)
-                      | None => if op_valid c (create_op iss)
-                                then Some ([create_op iss], emit (RBug (i_iid iss)) (set_bugs (put_bug (mkbug (i_iid iss) [create_op iss]) (rs_bugs s1)) s1))
+                      | None => if op_valid c (create_op c iss)
+                                then Some ([create_op c iss], emit (RBug (i_iid iss)) (set_bugs (put_bug (mkbug (i_iid iss) [create_op c iss]) (rs_bugs s1)) s1))
                                 else None
                       end) with
                | Some (ops0, s2) => inv_ops c iss ops0 /\ rs_idents s2 = rs_idents s1 /\ ops_of (i_iid iss) (rs_bugs s2) = ops0 /\
@@ -1284,25 +1298,25 @@ Proof. intros Dd BO G. cbn zeta. unfold import_issue.
   { rewrite B1. destruct (find_bug (i_iid iss) (rs_bugs s)) as [b|] eqn:FB.
     - split; [now apply BO|]. split; [reflexivity|]. unfold ops_of. rewrite B1, FB. split; [reflexivity|]. split; [auto|].
       split; [exists []; now rewrite app_nil_r|auto].
-    - destruct (op_valid c (create_op iss)) eqn:V; [|exact I]. cbn [emit set_bugs rs_idents rs_bugs].
+    - destruct (op_valid c (create_op c iss)) eqn:V; [|exact I]. cbn [emit set_bugs rs_idents rs_bugs].
       split; [now apply inv_ops_create|]. split; [reflexivity|]. unfold ops_of.
-      rewrite (find_put_same (mkbug (i_iid iss) [create_op iss])), FB. cbn [b_ops]. split; [reflexivity|].
-      split; [intros iid' Ne; now apply find_put_other|]. split; [now exists [create_op iss]|].
+      rewrite (find_put_same (mkbug (i_iid iss) [create_op c iss])), FB. cbn [b_ops]. split; [reflexivity|].
+      split; [intros iid' Ne; now apply find_put_other|]. split; [now exists [create_op c iss]|].
       intros g [<-|[]]. now right. }
   destruct (match find_bug (i_iid iss) (rs_bugs s1) with Some b => Some (b_ops b, s1) | None => _ end) as [[ops0 s2]|]; [|exact Abort].
   destruct Cr as [I0 [Id2 [O2 [Fr2 [Pre2 Gi2]]]]].
-  pose proof (fetch_pages_core (QNotes (i_iid iss)) p (i_notes iss) (npages p (i_notes iss)) 1 s2) as [A3 B3].
-  pose proof (fetch_pages_incl (QNotes (i_iid iss)) p (i_notes iss) (npages p (i_notes iss)) 1 s2) as In3.
-  change (fetch_pages (npages p (i_notes iss)) (QNotes (i_iid iss)) p (i_notes iss) 1 s2) with (fetch_all (QNotes (i_iid iss)) p (i_notes iss) s2) in *.
-  destruct (fetch_all (QNotes (i_iid iss)) p (i_notes iss) s2) as [[s3 ns] fn]. cbn [fst snd] in *.
-  pose proof (fetch_pages_core (QLabels (i_iid iss)) p (i_labels iss) (npages p (i_labels iss)) 1 s3) as [A4 B4].
-  pose proof (fetch_pages_incl (QLabels (i_iid iss)) p (i_labels iss) (npages p (i_labels iss)) 1 s3) as In4.
-  change (fetch_pages (npages p (i_labels iss)) (QLabels (i_iid iss)) p (i_labels iss) 1 s3) with (fetch_all (QLabels (i_iid iss)) p (i_labels iss) s3) in *.
-  destruct (fetch_all (QLabels (i_iid iss)) p (i_labels iss) s3) as [[s4 ls] fl]. cbn [fst snd] in *.
-  pose proof (fetch_pages_core (QStates (i_iid iss)) p (i_states iss) (npages p (i_states iss)) 1 s4) as [A5 B5].
-  pose proof (fetch_pages_incl (QStates (i_iid iss)) p (i_states iss) (npages p (i_states iss)) 1 s4) as In5.
-  change (fetch_pages (npages p (i_states iss)) (QStates (i_iid iss)) p (i_states iss) 1 s4) with (fetch_all (QStates (i_iid iss)) p (i_states iss) s4) in *.
-  destruct (fetch_all (QStates (i_iid iss)) p (i_states iss) s4) as [[s5 ss] fs]. cbn [fst snd] in *.
+  pose proof (fetch_pages_core c (QNotes (i_iid iss)) p (i_notes iss) (npages p (i_notes iss)) 1 s2) as [A3 B3].
+  pose proof (fetch_pages_incl c (QNotes (i_iid iss)) p (i_notes iss) (npages p (i_notes iss)) 1 s2) as In3.
+  change (fetch_pages c (npages p (i_notes iss)) (QNotes (i_iid iss)) p (i_notes iss) 1 s2) with (fetch_all c (QNotes (i_iid iss)) p (i_notes iss) s2) in *.
+  destruct (fetch_all c (QNotes (i_iid iss)) p (i_notes iss) s2) as [[s3 ns] fn]. cbn [fst snd] in *.
+  pose proof (fetch_pages_core c (QLabels (i_iid iss)) p (i_labels iss) (npages p (i_labels iss)) 1 s3) as [A4 B4].
+  pose proof (fetch_pages_incl c (QLabels (i_iid iss)) p (i_labels iss) (npages p (i_labels iss)) 1 s3) as In4.
+  change (fetch_pages c (npages p (i_labels iss)) (QLabels (i_iid iss)) p (i_labels iss) 1 s3) with (fetch_all c (QLabels (i_iid iss)) p (i_labels iss) s3) in *.
+  destruct (fetch_all c (QLabels (i_iid iss)) p (i_labels iss) s3) as [[s4 ls] fl]. cbn [fst snd] in *.
+  pose proof (fetch_pages_core c (QStates (i_iid iss)) p (i_states iss) (npages p (i_states iss)) 1 s4) as [A5 B5].
+  pose proof (fetch_pages_incl c (QStates (i_iid iss)) p (i_states iss) (npages p (i_states iss)) 1 s4) as In5.
+  change (fetch_pages c (npages p (i_states iss)) (QStates (i_iid iss)) p (i_states iss) 1 s4) with (fetch_all c (QStates (i_iid iss)) p (i_states iss) s4) in *.
+  destruct (fetch_all c (QStates (i_iid iss)) p (i_states iss) s4) as [[s5 ss] fs]. cbn [fst snd] in *.
   set (evs := sorted_events _ _ _).
   assert (Fev : Forall (In_ev iss) evs) by (subst evs; now apply sorted_events_in_ev).
   assert (G5 : grown c us base (rs_idents s5)) by (rewrite A5, A4, A3, Id2; exact G1).
@@ -1327,12 +1341,12 @@ Proof. intros Dd BO G. cbn zeta. unfold import_issue.
 Lemma firstn_app_skipn {A} p n (x : list A) : firstn p x ++ firstn n (skipn p x) = firstn (p + n) x.
 Proof. revert x. induction p as [|p IH]; intros x; cbn; [reflexivity|]. destruct x; cbn; [now rewrite firstn_nil|]. now rewrite IH. Qed.
 
-Lemma fetch_pages_prefix {A} (mk : nat -> req) p (l : list A) : forall fuel k s, (1 <= k)%nat ->
-  exists n, snd (fst (fetch_pages fuel mk p l k s)) = firstn n (skipn ((k - 1) * p) l).
+Lemma fetch_pages_prefix {A} c (mk : nat -> req) p (l : list A) : forall fuel k s, (1 <= k)%nat ->
+  exists n, snd (fst (fetch_pages c fuel mk p l k s)) = firstn n (skipn ((k - 1) * p) l).
 Proof. induction fuel as [|f IH]; intros k s Hk; cbn [fetch_pages]; [exists 0%nat; reflexivity|].
   destruct (send (mk k) s) as [s1 ok]. destruct ok; cbn [negb]; [|exists 0%nat; reflexivity].
-  destruct (Nat.leb (npages p l) k); [exists p; reflexivity|].
-  destruct (IH (S k) s1 ltac:(lia)) as [n E]. destruct (fetch_pages f mk p l (S k) s1) as [[s2 rest] failed]. cbn [fst snd] in *.
+  destruct (last_page c p l k); [exists p; reflexivity|].
+  destruct (IH (S k) s1 ltac:(lia)) as [n E]. destruct (fetch_pages c f mk p l (S k) s1) as [[s2 rest] failed]. cbn [fst snd] in *.
   exists (p + n)%nat. rewrite E. unfold page_of.
   replace (S k - 1)%nat with (k - 1 + 1)%nat by lia. rewrite Nat.mul_add_distr_r, Nat.mul_1_l, skipn_add. apply firstn_app_skipn. Qed.
 
@@ -1380,10 +1394,10 @@ Lemma import_all_sound c t p since s base : c_dedupe_labels c = true -> wf_track
      forall g, In g (gids (ops_of (i_iid i) (rs_bugs (fst r)))) ->
                In g (gids (ops_of (i_iid i) (rs_bugs s))) \/ g = i_iid i \/ justified_ev c (t_users t) base i g).
 Proof. intros Dd W BO G. cbn zeta. unfold import_all.
-  pose proof (fetch_pages_core QIssues p (listed t since) (npages p (listed t since)) 1 s) as [A1 B1].
-  destruct (fetch_pages_prefix QIssues p (listed t since) (npages p (listed t since)) 1 s ltac:(lia)) as [n Pre].
-  change (fetch_pages (npages p (listed t since)) QIssues p (listed t since) 1 s) with (fetch_all QIssues p (listed t since) s) in *.
-  destruct (fetch_all QIssues p (listed t since) s) as [[s1 l] failed]. cbn [fst snd] in *. cbn in Pre.
+  pose proof (fetch_pages_core c QIssues p (listed t since) (npages p (listed t since)) 1 s) as [A1 B1].
+  destruct (fetch_pages_prefix c QIssues p (listed t since) (npages p (listed t since)) 1 s ltac:(lia)) as [n Pre].
+  change (fetch_pages c (npages p (listed t since)) QIssues p (listed t since) 1 s) with (fetch_all c QIssues p (listed t since) s) in *.
+  destruct (fetch_all c QIssues p (listed t since) s) as [[s1 l] failed]. cbn [fst snd] in *. cbn in Pre.
   destruct (listed_wf t since W) as [_ Nl]. destruct W as [Wt Nt].
   assert (Inl : forall i, In i l -> In i (t_issues t)) by (intros i Hi; rewrite Pre in Hi; apply firstn_In' in Hi; now apply (listed_in t since)).
   assert (NDl : NoDup (map i_iid l)) by (rewrite Pre, <- firstn_map; now apply NoDup_firstn).
@@ -1453,9 +1467,9 @@ Proof. intros H NE. unfold evs_of. apply sorted_events_complete. destruct e as [
 (* ------------------------------------------------------------------ a run that is not stopped *)
 
 Definition no_stop (c : cfg) (us : list user) (l : list issue) (idents : list N) (bugs : list bug) : Prop :=
-  forall i, In i l -> person_ok c us idents (i_author i) = true /\ (find_bug (i_iid i) bugs <> None \/ op_valid c (create_op i) = true).
+  forall i, In i l -> person_ok c us idents (i_author i) = true /\ (find_bug (i_iid i) bugs <> None \/ op_valid c (create_op c i) = true).
 
-Lemma issues_complete c us p : c_dedupe_labels c = true -> (1 <= p)%nat -> forall l s,
+Lemma issues_complete c us p : c_dedupe_labels c = true -> paging_ok c p -> forall l s,
   Forall wf_issue l -> NoDup (map i_iid l) -> rs_fault s = None -> (forall i, In i l -> bug_ok c i (rs_bugs s)) ->
   no_stop c us l (rs_idents s) (rs_bugs s) -> snd (import_issues c us p l s) = true.
 Proof. intros Dd Hp. induction l as [|i t IH]; intros s W ND F BO NS; [reflexivity|].
@@ -1475,7 +1489,7 @@ Proof. intros Dd Hp. induction l as [|i t IH]; intros s W ND F BO NS; [reflexivi
 Lemma ops_of_found iid bugs : ops_of iid bugs <> [] -> find_bug iid bugs <> None.
 Proof. unfold ops_of. destruct (find_bug iid bugs); [discriminate|congruence]. Qed.
 
-Lemma clean_char c t p since s : c_dedupe_labels c = true -> (1 <= p)%nat -> wf_tracker t ->
+Lemma clean_char c t p since s : c_dedupe_labels c = true -> paging_ok c p -> wf_tracker t ->
   (forall i, In i (listed t since) -> ids_disjoint i) -> rs_fault s = None -> bugs_ok c t (rs_bugs s) ->
   no_stop c (t_users t) (listed t since) (rs_idents s) (rs_bugs s) ->
   let r := import_all c t p since s in
@@ -1513,7 +1527,7 @@ Proof. intros Dd Hp W Dj F BO NS. cbn zeta.
 (* ------------------------------------------------------------------ C16_resume: a run in which one request fails, then a clean run: the same events are
    imported as by a clean run *)
 
-Lemma resume_same c t p since idents bugs q : c_dedupe_labels c = true -> (1 <= p)%nat -> wf_tracker t ->
+Lemma resume_same c t p since idents bugs q : c_dedupe_labels c = true -> paging_ok c p -> wf_tracker t ->
   (forall i, In i (listed t since) -> ids_disjoint i) -> bugs_ok c t bugs ->
   no_stop c (t_users t) (listed t since) idents bugs ->
   let clean := fst (import_all c t p since (mkrs idents bugs [] [] None)) in
@@ -1569,3 +1583,50 @@ Lemma valid_after c t p since s : c_dedupe_labels c = true -> wf_tracker t -> bu
 Proof. intros Dd W BO i Hi.
   pose proof (import_all_sound c t p since s (rs_idents s) Dd W BO (grown_refl _ _ _)) as [_ [B _]].
   unfold ops_of. destruct (find_bug (i_iid i) _) as [b|] eqn:FB; [|constructor]. now apply (B i Hi b FB). Qed.
+
+(* ------------------------------------------------------------------ the repairs that followed the audit of the unchanged tree *)
+
+(* following X-Next-Page (or X-Total-Pages when the server sends it): a listing without failure returns every item *)
+Lemma listing_complete {A} c (mk : nat -> req) p (l : list A) s : paging_ok c p -> rs_fault s = None ->
+  snd (fst (fetch_all c mk p l s)) = l /\ snd (fetch_all c mk p l s) = false.
+Proof. intros Hp F. destruct (fetch_all_clean c mk p l s Hp F) as [s' [E _]]. now rewrite E. Qed.
+
+(* the author of an event whose user was deleted (id 0) is always there, and no request is made for it *)
+Lemma deleted_user_author c us s : c_ghost c = true ->
+  let r := ensure_person c us 0 s in
+  snd r = true /\ rs_reqs (fst r) = rs_reqs s /\ rs_fault (fst r) = rs_fault s /\ In 0 (rs_idents (fst r)).
+Proof. intros G. cbn zeta. unfold ensure_person, is_ghost. rewrite G. cbn [andb N.eqb].
+  destruct (memN 0 (rs_idents s)) eqn:M; cbn.
+  - repeat split. now apply memN_In.
+  - repeat split. apply in_or_app. right. now left. Qed.
+Lemma deleted_user_ok c us idents : c_ghost c = true -> person_ok c us idents 0 = true.
+Proof. intros G. unfold person_ok, resolvable, is_ghost. rewrite G. cbn. apply orb_true_r. Qed.
+
+(* a new title is never refused, unless nothing at all is left of it *)
+Lemma note_title_valid c t : c_clean_title c = true -> c_empty_text c = true -> title_valid c placeholder = true ->
+  cleanup1 t <> [] -> title_valid c (note_title c t) = true.
+Proof. intros Ct Ce Pv Ne. unfold note_title. rewrite Ct, Ce. cbn [andb].
+  destruct (text_eqb (cleanup1 t) []) eqn:Q; [apply text_eqb_eq in Q; contradiction|]. cbn [negb andb].
+  destruct (text_empty (c_graphic c) (cleanup1 t)) eqn:E; [exact Pv|]. unfold title_valid. rewrite E. cbn. apply cleanup1_safe1. Qed.
+
+(* the create operation of an issue is never refused: no issue stops the run because of its title *)
+Lemma issue_title_valid c iss : c_empty_text c = true -> title_valid c placeholder = true -> op_valid c (create_op c iss) = true.
+Proof. intros Ce Pv. cbn. unfold issue_title. rewrite Ce. cbn [andb].
+  destruct (text_empty (c_graphic c) (cleanup1 (i_title iss))) eqn:E.
+  - rewrite Pv. apply cleanup_safe.
+  - unfold title_valid. rewrite E, cleanup1_safe1. apply cleanup_safe. Qed.
+
+Lemma no_stop_authors c us l idents bugs : c_empty_text c = true -> title_valid c placeholder = true ->
+  (forall i, In i l -> person_ok c us idents (i_author i) = true) -> no_stop c us l idents bugs.
+Proof. intros Ce Pv H i Hi. split; [now apply H|]. right. now apply issue_title_valid. Qed.
+
+(* a label event names no label (and is skipped) or its label is valid *)
+Lemma label_skipped_or_valid c e : c_empty_text c = true -> no_label c e = true \/ label_valid c (label_name e) = true.
+Proof. intros Ce. unfold no_label, label_valid. rewrite Ce. cbn [andb].
+  destruct (text_empty (c_graphic c) (label_name e)); [now left|right]. cbn.
+  destruct e; try reflexivity. cbn. apply cleanup1_safe1. Qed.
+
+(* a user is refused only when neither the name nor the login has a visible character *)
+Lemma ident_valid_clean c u : c_clean_ident c = true ->
+  ident_valid c u = negb (text_empty (c_graphic c) (cleanup1 (u_name u)) && text_empty (c_graphic c) (cleanup1 (u_login u))).
+Proof. intros Ci. unfold ident_valid, user_text. rewrite Ci. rewrite !cleanup1_safe1. now rewrite !andb_true_r. Qed.
